@@ -267,14 +267,17 @@ impl<R: DynamicChannelRegion> RegionHandler for DynamicChannelPlan<R> {
             && let Some(mut channel) = self.channels[index as usize]
             && channel.frequency != 0
         {
-            channel.dl_frequency = if freq == channel.frequency {
-                // Reset downlink frequency
-                None
-            } else {
-                // Update downlink frequency
-                Some(freq)
-            };
-            self.channels[index as usize] = Some(channel);
+            // A request that is not fully acknowledged must not change the RX1 frequency
+            if freq_valid {
+                channel.dl_frequency = if freq == channel.frequency {
+                    // Reset downlink frequency
+                    None
+                } else {
+                    // Update downlink frequency
+                    Some(freq)
+                };
+                self.channels[index as usize] = Some(channel);
+            }
             return (freq_valid, true);
         }
         (freq_valid, false)
